@@ -129,6 +129,10 @@ def k_pdu(ctx, kind, cfg, p, model_fed=False, via="ctor", seed=0):
     ctx.check("pdu.roundtrip", u.packet_len == len(want), "packet_len", feat, case, observed=u.packet_len, expected=len(want))
     ok, rp = attempt(u.pack)
     ctx.check("pdu.roundtrip", ok and bytes(rp) == want, "repack", feat, case, observed=bytes(rp)[:96] if ok else repr(rp))
+    # the generic entry point finds the same PDU (the directive octet's position depends on the id / sequence-number widths)
+    ok, g = attempt(X.PduFactory.from_raw, src)
+    ctx.check("pdu.unpack", ok and type(g) is cls and C.norm_params(kind, C.get_params(kind, g)) == exp and bytes(g.pack()) == want, "generic_decode_differs",
+              f"{kind}/idw={cfg['idw']}/seqw={cfg['seqw']}", case, observed=repr(g)[:200])
     ISO.remember(u, want, kind, view=lambda u=u: (C.get_params(kind, u), C.hdr_fields(u.pdu_header), u.packet_len))
     ISO.recheck(ctx, "pdu.decoded_objects_independent", case)
 
